@@ -336,10 +336,30 @@ pub fn run_case(tape: &mut Tape, _tier: Tier, _p: &CaseParams) -> CaseOutcome {
   }
   for (nv, got) in &pkg_exports {
     if !got.is_empty() && !used_exports.contains_key(nv) {
+      // the version was selected for a requirement that a later resolution
+      // of the same requirement mapped to another version (table entry
+      // overwritten): the known double selection, seen from this side
+      let twice = resolves.iter().filter(|(_, v)| v == nv).any(|(r, _)| {
+        let Some(req) = parse_req(r) else { return false };
+        resolves
+          .iter()
+          .filter(|(r2, _)| {
+            parse_req(r2)
+              .is_some_and(|x| x.cmp(&req) == std::cmp::Ordering::Equal)
+          })
+          .map(|(_, v)| v)
+          .collect::<BTreeSet<_>>()
+          .len()
+          > 1
+      });
       out.violation(
         "C07",
         "package-exports-bookkeeping",
-        "package-exports-unexpected",
+        if twice {
+          "same-requirement-selected-twice:package-exports"
+        } else {
+          "package-exports-unexpected"
+        },
         format!("package_exports({}) = {:?} but no jsr: specifier used an export of it", nv, got),
         ctx(json!({"nv": nv})),
       );
